@@ -130,3 +130,8 @@ func forall(lo, hi int, f func(int) bool) bool {
 //@   ensures len(s.state.completedSnapshots) == 0 ==> result == nil
 //@   ensures len(s.state.completedSnapshots) > 0 ==> result != nil && result.Id == s.state.completedSnapshots[len(s.state.completedSnapshots)-1].id &&
 //@           result.OperatorCheckpoints == s.state.completedSnapshots[len(s.state.completedSnapshots)-1].operatorCheckpoints
+
+//@ func Store.AbortPendingCheckpoint
+//@   property C12 C15
+//@   modifies s.state
+//@   ensures s.state.pendingSnapshot == nil && s.state.checkpointID == old(s.state.checkpointID) && same(s.state.completedSnapshots, old(s.state.completedSnapshots))
